@@ -20,6 +20,17 @@ def sh(cmd, cwd=None, timeout=1800):
     return r.returncode, (r.stdout + r.stderr)
 
 
+def kill_in(d):
+    """kill processes whose cwd is under d (daemons leaked by a broken variant's tests)"""
+    import glob, signal
+    for c in glob.glob("/proc/[0-9]*/cwd"):
+        try:
+            if os.readlink(c).startswith(d):
+                os.kill(int(c.split("/")[2]), signal.SIGKILL)
+        except OSError:
+            pass
+
+
 meta = {"name": name, "property": prop, "agent_worktree": wt, "ran": []}
 patch = os.path.join(wt, "patch.diff")
 if not os.path.exists(patch) or os.path.getsize(patch) == 0:
@@ -86,6 +97,7 @@ try:
         meta["ran"].append(democmd + "  (with the change: must fail; after git apply -R: must pass)")
         ok = fails_with and meta["demo_passes_without_change"]
 finally:
+    kill_in(ver)
     sh(f"git -C /repo worktree remove --force {ver}")
     shutil.rmtree(ver, ignore_errors=True)
 meta["confirmed"] = ok
